@@ -1,5 +1,6 @@
 import UvModel.DriverUtil
 import UvModel.ThreadArith
+import UvModel.CustomSem
 /-! line-protocol driver for C20 (mode `threads`); the other side is harness/c20_threads.c -/
 namespace Drivers.C20
 open UvModel.DriverUtil UvModel.ThreadArith
@@ -139,6 +140,41 @@ def step (st : St) : List String → St × List String
     (st, [s!"hrtime {hrtime (nat! sec) (nat! nsec)} clk {id}"])
   | ws => (st, (stepPure () ws).2)
 
-def modes : List (String × IO Unit) := [("threads", runLines ({} : St) step)]
+/-- mode `csem` (other side: harness/c20_csem.c, the real uv__custom_sem_* under a serialising scheduler):
+  csem <init> <prog>/<prog>/... <sched>  → events | left <n> then <rc> stuck <0|1> -/
+def parseProg (p : String) : Option (List UvModel.CustomSem.Op) :=
+  if p = "-" then some [] else
+  p.toList.mapM fun c => match c with
+    | 'w' => some UvModel.CustomSem.Op.wait | 't' => some .trywait | 'p' => some .post | _ => none
+
+def parseSched (n : Nat) (s : String) : Option (List UvModel.CustomSem.Choice) :=
+  if s = "-" then some [] else
+  s.toList.mapM fun c =>
+    if '0' ≤ c ∧ c.toNat < '0'.toNat + n then some (UvModel.CustomSem.Choice.thread (c.toNat - '0'.toNat))
+    else if 'a' ≤ c ∧ c.toNat < 'a'.toNat + n then some (.wake (c.toNat - 'a'.toNat))
+    else none
+
+def csemStep (_ : Unit) : List String → Unit × List String
+  | ["csem", ini, progs, sched] =>
+    if !(isNat ini && ini.length < 9) then ((), ["bad-op"]) else
+    match (progs.splitOn "/").mapM parseProg with
+    | none => ((), ["bad-op"])
+    | some ps =>
+      if ps.length = 0 || ps.length > 8 || ps.any (fun p => p.length ≥ 32) then ((), ["bad-op"]) else
+      match parseSched ps.length sched with
+      | none => ((), ["bad-op"])
+      | some cs =>
+        let nops := (ps.map List.length).foldl (· + ·) 0
+        let nposts := (ps.map (fun p => (p.filter (· = UvModel.CustomSem.Op.post)).length)).foldl (· + ·) 0
+        let (s, evs) := UvModel.CustomSem.run (UvModel.CustomSem.init (nat! ini) ps) cs (64 * (nops + 4) + cs.length)
+        let cap := nat! ini + nposts + 3
+        let left := min s.value.toNat cap
+        let thn : Int := if left < cap then UvModel.CustomSem.UV_EAGAIN else 0
+        let line := String.join (evs.map (· ++ " ")) ++ s!"| left {left} then {thn} stuck {b01 (UvModel.CustomSem.stuck s)}"
+        ((), [line])
+  | [] => ((), [])
+  | _ => ((), ["bad-op"])
+
+def modes : List (String × IO Unit) := [("threads", runLines ({} : St) step), ("csem", runLines () csemStep)]
 
 end Drivers.C20
